@@ -453,6 +453,26 @@ def oracle_sn_model(case) -> Result:
                             dict(state, gumbel=gum[nid]), None, n_checked)
         if res.discrepancies:
             return res
+    # two rounds: right after the last forward pass, and after the coefficients moved again with
+    # NO forward pass in between (summary / export follow the current raw coefficients)
+    for rnd in ('after-forward', 'coefficients-moved-no-forward'):
+        if rnd != 'after-forward':
+            with torch.no_grad():
+                for nid, c in combs.items():
+                    c.alpha.copy_(mu.scores(c.n_branches, None, 4242 + len(case['ops']), nid))
+        _summary_export_follow_argmax(res, sn, combs, rnd)
+        if res.discrepancies:
+            return res
+    res.nontrivial = moved and any(int(torch.argmax(c.alpha)) != 0 for c in combs.values())
+    res.ev(*{f"opt:{n}" for o, a in case['ops'] if o == 'opt' for n, _ in _pairs(a)})
+    if any(o == 'opt' and len(_pairs(a)) > 1 for o, a in case['ops']):
+        res.ev('several-options-in-one-call')
+    res.obs = {'combiner_samples_checked': n_checked[0]}
+    return res
+
+
+def _summary_export_follow_argmax(res, sn, combs, rnd):
+    import torch
     summ = sn.summary()
     exported = must(res, 'export', sn.export)
     for nid, c in combs.items():
@@ -461,19 +481,14 @@ def oracle_sn_model(case) -> Result:
         rep = [s[f"branch_{j}"]['alpha'] for j in range(c.n_branches)]
         if len(set(rep)) == len(rep) and max(range(len(rep)), key=lambda j: rep[j]) != best:
             res.bad('summary-largest-coefficient-not-on-argmax-branch', block=nid, reported=rep,
-                    argmax=best)
+                    argmax=best, when=rnd)
         if exported is not None:
             names = [k for k, _ in exported.named_modules() if k.startswith(f"layers.{nid}.")]
             other = [k for k in names if '.sn_branches.' in k and
                      not (k + '.').startswith(f"layers.{nid}.sn_branches.{best}.")]
             if other or any('sn_combiner' in k for k in names):
-                res.bad('export-kept-non-winning-branch', block=nid, winner=best, kept=other[:4])
-    res.nontrivial = moved and any(int(torch.argmax(c.alpha)) != 0 for c in combs.values())
-    res.ev(*{f"opt:{n}" for o, a in case['ops'] if o == 'opt' for n, _ in _pairs(a)})
-    if any(o == 'opt' and len(_pairs(a)) > 1 for o, a in case['ops']):
-        res.ev('several-options-in-one-call')
-    res.obs = {'combiner_samples_checked': n_checked[0]}
-    return res
+                res.bad('export-kept-non-winning-branch', block=nid, winner=best, kept=other[:4],
+                        when=rnd)
 
 
 def c10_dw_perchannel_export(part, case, disc) -> bool:
